@@ -45,6 +45,8 @@ type World struct {
 	// Segmented: client connections deliver one write per read (TCP may do that
 	// as well as coalescing; some interleavings only exist this way)
 	Segmented bool
+	// PostRead: a scheduling point follows every read the gateway does on a client connection
+	PostRead bool
 }
 
 // NewWorld installs a fresh network.
@@ -56,6 +58,7 @@ func NewWorld() *World {
 		}
 		n := len(w.Backends)
 		gwEnd, beEnd := vnet.NewPipe("gw>backend"+strconv.Itoa(n), "backend"+strconv.Itoa(n), true)
+		gwEnd.PostRead = w.PostRead
 		b := &Backend{Addr: address, Conn: beEnd, GwSide: gwEnd}
 		w.Backends = append(w.Backends, b)
 		if w.OnBackend != nil {
@@ -233,6 +236,7 @@ type HandlerRun struct {
 func (w *World) Serve(name string, h http.Handler, method string, hdr http.Header, remoteAddr string, id identity.Identity) *HandlerRun {
 	cl, srv := vnet.NewPipe(name+":client", name+":gw", !w.Segmented)
 	srv.SetAddrs("10.9.9.9:443", remoteAddr)
+	srv.PostRead = w.PostRead
 	r, _ := http.NewRequest("GET", "http://gw.example/remoteDesktopGateway/", nil)
 	r.Method = method
 	r.RemoteAddr = remoteAddr
